@@ -124,6 +124,7 @@ pub fn usage(c: &HCase, st: &mut Stats) -> Result<(), String> {
                 kind: c.kind,
                 offered: c.offered,
                 policy: c.policy,
+                big: false,
                 ops: vec![c18::VOp::Listen(0), c18::VOp::Peer { peer: 0, port: 0, op: 1, len: 0, bad_cid: false }, c18::VOp::Poll, c18::VOp::Send(0, 0, 10), c18::VOp::Peer { peer: 0, port: 0, op: 5, len: 30, bad_cid: false }, c18::VOp::Poll, c18::VOp::Recv(0, 0, 100)],
             },
             st,
